@@ -13,6 +13,12 @@ R2g generalized routines (Dgghrd, Dggsvp3, Dggsvd3, Dtgsja), the WEAKER binding:
     GenSpectralLemmas.tla has TLC check it on exactly known decompositions and mutations, and the
     harness evaluates the same formulas exactly on gonum's output for the integer instances of
     GenSpectral.tla (exact ranks and structure preconditions come from the specification).
+R2k kernels bound directly (KernelSpectral.tla / KernelSpectralLemmas.tla): Dlag2 on planted 2x2 pencils A = B*S*D*S^-1
+    (real and complex pairs, power-of-two scalings of A and B; the documented meaning of the five results is the
+    predicate Lag2Accept with a Bauer-Fike tolerance) and Dlasq6 on planted qd windows on which every quotient is exact
+    (definition: the rhombus rules; expected bit for bit, both ping-pong halves, windows inside a longer array);
+    Dlasr (all 12 side x pivot x direct variants, exact quarter-turn rotations), Dlarfx (exact reflectors of every order
+    1..12 from both sides) and Dlaqr1 (first column of the double-shift product, up to the unspecified scalar).
 """
 import os
 
@@ -52,6 +58,11 @@ GEN = {
 }
 
 
+# kernels (KernelSpectral.tla): all families (lag2, lasq6, lasr, larfx, laqr1) in one TLC run; Small per tier
+# (lag2: >= 7 = every scaling of every pencil; lasq6: largest window; lasr: matrices up to min(Small, 5))
+KERN = {"kall": {"quick": 6, "thorough": 7}}
+
+
 GEN_LEMMA = {
     "gghrd": {"quick": (4, 6), "thorough": (6, 6)},
     "ggsvd": {"quick": (4, 8), "thorough": (5, 8)},
@@ -87,7 +98,11 @@ def run(ctx):
                  [(lambda fam=fam: ctx.tlc("spectral/GenSpectralLemmas.tla", "spectral/GenSpectralLemmas.cfg",
                                             name="R1 GenSpectralLemmas %s" % fam,
                                             subst=gen_subst(fam, ctx.tier, ctx.seed, GEN_LEMMA), workers=2))
-                  for fam in GEN])
+                  for fam in GEN] +
+                 [(lambda fam=fam: ctx.tlc("spectral/KernelSpectralLemmas.tla", "spectral/KernelSpectralLemmas.cfg",
+                                            name="R1 KernelSpectralLemmas (lag2 lasq6 lasr larfx laqr1)",
+                                            subst=dict(FAM=fam, SMALL=KERN[fam][ctx.tier], BIG="{}", SEED=ctx.seed), workers=2))
+                  for fam in KERN])
 
     # ---- R2: planted instances replayed into gonum --------------------------------------------------
     def one(fam):
@@ -115,10 +130,16 @@ def run(ctx):
                         subst=gen_subst(fam, ctx.tier, ctx.seed))
         for bn, _ in builds:
             ctx.replay(bins[bn], "spectral", cases, [], name="R2g replay %s [%s]" % (fam, bn))
+    def kernel(fam):
+        cases = ctx.gen("spectral/KernelSpectral.tla", "spectral/KernelSpectral.cfg", name="R2k gen kernels (lag2 lasq6 lasr larfx laqr1)",
+                        subst=dict(FAM=fam, SMALL=KERN[fam][ctx.tier], BIG="{}", SEED=ctx.seed))
+        for bn, _ in builds:
+            ctx.replay(bins[bn], "spectral", cases, [], name="R2k replay kernels [%s]" % bn)
     # R1 and R2 stages are independent: one pool, the long generators first
     ctx.parallel([(lambda fam=fam: one(fam)) for fam in ("svd", "gev", "sym")] + r1
                  + [(lambda fam=fam: general(fam)) for fam in GEN]
-                 + [(lambda fam=fam: cond(fam)) for fam in COND], width=7)
+                 + [(lambda fam=fam: cond(fam)) for fam in COND]
+                 + [(lambda fam=fam: kernel(fam)) for fam in KERN], width=7)
 
     ctx.assumptions += [
         "TLC/SANY and the CommunityModules Json module are trusted",
@@ -134,6 +155,11 @@ def run(ctx):
         "predicates are stated in GenPred.tla and evaluated by the harness's mirror functions (genpred.go) in exact dyadic "
         "arithmetic (math/big.Int mantissa * 2^e, cross-checked against math/big.Rat by a unit test); that the mirror is a "
         "faithful transcription is trusted, TLC checks the predicates only on exactly known decompositions and mutations",
+        "Dlag2: the tolerance 30 * 2 * eps * |M| * kappa_1(S) * kappa_1(B) * 2^(ea-eb) (Bauer-Fike on B^-1*A = S*D*S^-1) is the "
+        "specification's; the largest accepted deviation / tolerance is recorded (lag2_max_dev_over_tol); Lag2Accept is evaluated by "
+        "the harness's mirror (kern.go, math/big.Rat). Dlasq6: expected bit for bit because KernelSpectralLemmas shows every value "
+        "to be a dyadic number with at most 31 + 30 significant bits. Dlasr / Dlarfx: integer data, exact rotations / reflectors, "
+        "expected exactly. Dlaqr1: Laqr1Accept (direction only, 30*eps on the 2x2 minors) evaluated by the harness's mirror",
         "Dggsvp3 / Dggsvd3: for the integer instances (entries -3..3, dimensions <= 5) the numerical rank with the documented "
         "tola / tolb is the exact rank (checked against a tree in which Dgeqp3 really pivots: every instance passes)",
     ]
@@ -142,7 +168,7 @@ def run(ctx):
              "one composition such as Dsytrd+Dorgtr+Dsteqr) on one spec-generated instance, every output compared with "
              "the specification's values or judged by the specification's acceptance predicate; non-trivial = the instance "
              "has min(m,n) >= 2 (svd) / n >= 3 (sym, gev, Dtrevc3) / ihi-ilo >= 2 (Dgghrd) / min(m,p,n) >= 2 (Dggsvp3, "
-             "Dggsvd3) / l >= 2 and m-k >= 2 (Dtgsja)",
+             "Dggsvd3) / l >= 2 and m-k >= 2 (Dtgsja); Dlag2, Dlaqr1: every call; Dlasq6: windows of at least 4 entries; Dlasr: at least two rotations; Dlarfx: order >= 2",
         exhaustive=False)
 
 
